@@ -1,4 +1,4 @@
 From Coq Require Import Extraction ExtrOcamlBasic NArith.
 From DV Require Import Base.Outcome C07.Gen C07.Model.
 Extraction Language OCaml.
-Extraction "../build/ml/C07/model.ml" c07_read c07_items.
+Extraction "../build/ml/C07/model.ml" c07_read c07_items c07_sym into_octet into_ascii into_char into_digit is_word_char.
